@@ -285,8 +285,20 @@ func init() {
 		Gens: []Gen{
 			{Name: "mixed", Weight: 1, Make: func(r *Rng, tier string) interface{} { return genConstrCase(r, tier) }},
 			{Name: "searchy", Weight: 2, Make: func(r *Rng, tier string) interface{} { return genSearchyCase(r, tier) }},
+			// the arithmetic on constraints the cutting-planes option resolves with (exact differential
+			// with GS.PbSet, as in C14): the option is one of the configurations this property is solved under
+			{Name: "pbset-ops", Weight: 1, Make: func(r *Rng, tier string) interface{} { return genPbOpCase(r, tier) }},
 		},
-		Run:     runConstrCase,
+		Run: func(o *Oracle, d json.RawMessage, oc *Outcome) {
+			var probe struct {
+				Kind string `json:"kind"`
+			}
+			if json.Unmarshal(d, &probe) == nil && probe.Kind == "pbop" {
+				runCPCase(o, d, oc)
+				return
+			}
+			runConstrCase(o, d, oc)
+		},
 		Cases:   defCases(6000, 150000),
 		Timeout: defDur(20*time.Second, 60*time.Second),
 		Wall:    defDur(50*time.Second, 12*time.Minute),
